@@ -212,6 +212,7 @@ class Net:
         self.bfactory.bus = self.bus
         self.links = []
         self.log = []
+        self.sent_raw = []
         self.crashes = []
         self.conns = {}        # idx -> connected DBusClientConnection (after Hello)
         self.conn_errs = {}
@@ -276,6 +277,8 @@ class Net:
             self.log.append(('send', who, msg_summary(m)))
         except Exception as e:
             self.log.append(('send', who, {'t': 'unparsable', 'exc': type(e).__name__}))
+        # the same observation with the bytes themselves (for byte-level correspondence: harness/c11.py `bytes-net`)
+        self.sent_raw.append((who, self.log[-1][2], raw))
 
     def transcode_big(self, raw):
         """The same message as a big-endian peer would write it (or `raw` itself when that is not possible
